@@ -10,15 +10,16 @@ TECH = "bounded model checking (Kani 0.68 / CBMC 6.11 + cadical) of graaf's own 
 
 # property -> (level text, level note, design ref)
 CLAIMED = {
-    "C01": ("Per representation: an arbitrary start digraph (loaded through add_arc; 3 vertices, AdjacencyMap / weighted: 2) "
-            "followed by 1-3 symbolic mutations (add / remove / matrix toggle / weighted re-add, AdjacencyMap vertex growth) with "
+    "C01": ("Per representation: an arbitrary start digraph (loaded through add_arc; 3 vertices; AdjacencyMap: empty(1) quick, "
+            "2 vertices thorough) followed by 1-3 symbolic mutations (add / remove / matrix toggle / weighted re-add, AdjacencyMap vertex growth) with "
             "in-range, just-out-of-range and usize::MAX ids; order, size, vertices(), has_arc for all pairs, arcs()/arcs_weighted() "
             "order, weights and every remove_arc return value are compared with a bit-matrix model in one SAT query per "
             "representation; every rejected call (self-loop, endpoint outside a fixed-order digraph) panics on every path. Since "
             "the start digraph is arbitrary, one further operation already covers histories of any length for that order. "
             "Thorough: 4 vertices with 3-4 operations (list, edge list, matrix).",
-            "Bounds N<=3 (4), K<=3 (4), map keys < 4; set/map models (f1), real Vec; 'state unchanged after a caught panic' is not "
-            "decided (no unwinding under Kani).", "DESIGN.md §3 C01"),
+            "Bounds N<=3 (4), K<=3 (4), map keys < 4; set/map models (f1), real Vec; in the quick tier the weighted list is compared "
+            "through arc_weight / has_arc / size (the arcs_weighted() iteration form is thorough); 'state unchanged after a caught "
+            "panic' is not decided (no unwinding under Kani).", "DESIGN.md §3 C01"),
     "C02": ("The 14 blanket/default query implementations over all 4096 digraphs on 4 vertices (array digraph, real std; 5 "
             "thorough), and per representation every inherent query over all digraphs on 3 vertices incl. the total queries with "
             "out-of-range / far-out ids, walks of length 0..3, the sequences of an AdjacencyMap on vertex sets within {0,2,3}, the "
@@ -41,7 +42,8 @@ CLAIMED = {
     "C05": ("BfsPred::predecessors over all digraphs on 4 vertices x all source sets and shortest_path over all digraphs on 3 "
             "vertices x all source sets x all target predicates: tree condition against oracle hop distances, None iff no reachable "
             "target, minimal-length walk from a source to a target. DijkstraPred: inductive base + step with the predecessor clause "
-            "(every yield's predecessor is settled and explains the distance; covers runs of any length, 3 vertices, weights < 256).",
+            "(every yield's predecessor is settled and explains the distance; covers runs of any length, 3 vertices, weights < 256; "
+            "pre-states with <= 2 heap entries quick, <= 3 thorough).",
             "cycles() and the whole-run Dijkstra wrappers (predecessors(), shortest_path()) are experiments that run out of memory; "
             "N<=4 (BFS), N=3 / <=3 heap entries (Dijkstra).", "DESIGN.md §3 C05"),
     "C06": ("Dfs, DfsDist, DfsPred over every digraph on 3 vertices x every source set (4 vertices thorough): each vertex at most "
@@ -89,7 +91,8 @@ CLAIMED = {
             "DESIGN.md §3 C15"),
     "C16": ("All From conversions between the four representations (+ weighted targets) over all digraphs on 3 vertices (those "
             "involving AdjacencyMap: 2 quick, 3 thorough); from(rows) with self-loops / out-of-range heads (valid: exact rows, "
-            "invalid: panics on every path); from(arcs) with <= 2..3 symbolic arcs incl. duplicates and the empty iterator.",
+            "invalid: panics on every path); from(arcs) with <= 3 symbolic arcs incl. duplicates and the empty iterator (EdgeList "
+            "quick; AdjacencyMatrix: rejection quick, exact result thorough - it takes 15-20 min).",
             "N<=3, K<=3, ids < 4; AdjacencyMatrix::from(arcs) with the fixed-size vector model (the order is symbolic).",
             "DESIGN.md §3 C16"),
     "C17": ("Configuration quantifier: on all digraphs of order 3, AdjacencyList::complement with exactly 1 and 2 CPUs, "
